@@ -151,12 +151,7 @@ func runHandover(kv map[string]string) string {
 	if err != nil {
 		return "ENV " + err.Error()
 	}
-	stopped := false
-	defer func() {
-		if !stopped {
-			t.stop()
-		}
-	}()
+	defer t.stop()
 	y := poolYAML(kind, addr, kv, 1, map[string]any{"type": "once", "times": 1})
 	rec := &c11lib.RecAggr{}
 	setupMu.Lock()
@@ -167,8 +162,7 @@ func runHandover(kv map[string]string) string {
 	}
 	defer m.Close()
 	if kv["fail"] == "conn" {
-		t.stop()
-		stopped = true
+		t.refuse()
 	}
 	done := 0
 	for i := 0; i < shots; i++ {
@@ -311,9 +305,8 @@ func runRaceInProc(kv map[string]string) string {
 	}
 	defer t.stop()
 	y := poolYAML(kind, addr, kv, n, map[string]any{"type": "once", "times": k})
-	if kv["fail"] == "conn" && t.http != nil {
-		t.http.Close() // every shot fails to connect
-		t.http = nil
+	if kv["fail"] == "conn" {
+		t.refuse() // every shot fails (the gRPC guns' start-up reflection is a stream and still answered)
 	}
 	if kv["agg"] == "phout" {
 		res := c11lib.RunEngine(y, nil, 60*time.Second)
@@ -655,6 +648,21 @@ func handoverCases(r *rand.Rand, rounds int) []string {
 	return out
 }
 
+// handoverExhaustive: every scenario length 1..4, every position of the failing step, every fault, both scenario guns.
+func handoverExhaustive() []string {
+	var out []string
+	for _, k := range []string{"httpscen", "grpcscen"} {
+		for _, f := range scenFails[k] {
+			for steps := 1; steps <= 4; steps++ {
+				for failat := 1; failat <= steps; failat++ {
+					out = append(out, fmt.Sprintf("mode=handover kind=%s shots=2 steps=%d failat=%d fail=%s", k, steps, failat, f))
+				}
+			}
+		}
+	}
+	return out
+}
+
 func pick(r *rand.Rand, xs []string) string { return xs[r.Intn(len(xs))] }
 
 // raceVariant: one whole-pool case with a random supported variant of the kind.
@@ -679,9 +687,6 @@ func raceVariant(r *rand.Rand, k string, n, shots int) string {
 		if r.Intn(2) == 0 {
 			steps := 2 + r.Intn(3)
 			f := pick(r, scenFails[k])
-			if f == "conn" && k == "grpcscen" {
-				f = "payload" // the gRPC guns need the target at start-up (reflection): no run without it
-			}
 			c += fmt.Sprintf(" steps=%d failat=%d fail=%s", steps, 1+r.Intn(steps), f)
 		}
 	}
@@ -696,7 +701,7 @@ func genPlain(r *rand.Rand, tier string) []string {
 	out = append(out, aliasCases()...)
 	out = append(out, handoverCases(r, 1)...)
 	for _, k := range []string{"uri", "httpscen", "grpcjson", "grpcscen"} {
-		for _, n := range []int{1, 2, 8} {
+		for _, n := range []int{1, 2, 4, 8} {
 			out = append(out, fmt.Sprintf("mode=guns kind=%s n=%d", k, n))
 		}
 	}
@@ -724,10 +729,11 @@ func genPlain(r *rand.Rand, tier string) []string {
 		}
 	}
 	if tier == "thorough" {
-		out = append(out, handoverCases(r, 12)...)
-		for i := 0; i < 8; i++ {
+		out = append(out, handoverCases(r, 6)...)
+		out = append(out, handoverExhaustive()...)
+		for i := 0; i < 12; i++ {
 			for _, o := range hammerObjs {
-				out = append(out, fmt.Sprintf("mode=hammer obj=%s n=%d calls=%d", o, 2+r.Intn(15), 1000+r.Intn(6000)))
+				out = append(out, fmt.Sprintf("mode=hammer obj=%s n=%d calls=%d", o, 2+r.Intn(15), 1000+r.Intn(11000)))
 			}
 		}
 		for _, k := range kinds {
@@ -735,15 +741,15 @@ func genPlain(r *rand.Rand, tier string) []string {
 				out = append(out, fmt.Sprintf("mode=guns kind=%s n=%d", k, 1+r.Intn(12)))
 			}
 		}
-		for i := 0; i < 12; i++ {
+		for i := 0; i < 26; i++ {
 			for _, k := range kinds {
-				out = append(out, raceVariant(r, k, 2+r.Intn(15), 300+r.Intn(1200)))
+				out = append(out, raceVariant(r, k, 2+r.Intn(15), 300+r.Intn(2500)))
 			}
 		}
 		// every failure path of both scenario guns, concurrently, with the pooling aggregator
 		for _, k := range []string{"httpscen", "grpcscen"} {
 			for _, f := range scenFails[k] {
-				for i := 0; i < 2; i++ {
+				for i := 0; i < 3; i++ {
 					steps := 1 + r.Intn(4)
 					out = append(out, fmt.Sprintf("mode=race kind=%s n=%d shots=%d steps=%d failat=%d fail=%s agg=phout", k, 2+r.Intn(15),
 						200+r.Intn(600), steps, 1+r.Intn(steps), f))
@@ -764,15 +770,9 @@ func genRace(r *rand.Rand, tier string) []string {
 	for _, k := range []string{"uri", "httpjson", "httpscen", "grpcscen", "grpcjson"} {
 		out = append(out, "mode=alias kind="+k)
 	}
-	for _, c := range handoverCases(r, 1) {
-		if r.Intn(3) == 0 {
-			out = append(out, c)
-		}
-	}
+	out = append(out, handoverCases(r, 1)...)
 	for _, o := range hammerObjs {
-		if r.Intn(2) == 0 {
-			out = append(out, fmt.Sprintf("mode=hammer obj=%s n=%d calls=%d", o, 2+r.Intn(5), 2000+r.Intn(2000)))
-		}
+		out = append(out, fmt.Sprintf("mode=hammer obj=%s n=%d calls=%d", o, 2+r.Intn(5), 2000+r.Intn(2000)))
 	}
 	for _, k := range []string{"uripost", "raw", "httpjson", "httpscen", "grpcscen"} {
 		out = append(out, fmt.Sprintf("mode=guns kind=%s n=%d", k, 3+r.Intn(4)))
@@ -783,9 +783,9 @@ func genRace(r *rand.Rand, tier string) []string {
 	if tier == "thorough" {
 		out = append(out, aliasCases()...)
 		out = append(out, handoverCases(r, 6)...)
-		for i := 0; i < 6; i++ {
+		for i := 0; i < 10; i++ {
 			for _, o := range hammerObjs {
-				out = append(out, fmt.Sprintf("mode=hammer obj=%s n=%d calls=%d", o, 2+r.Intn(31), 500+r.Intn(8000)))
+				out = append(out, fmt.Sprintf("mode=hammer obj=%s n=%d calls=%d", o, 2+r.Intn(31), 500+r.Intn(12000)))
 			}
 		}
 		for _, k := range kinds {
@@ -793,9 +793,9 @@ func genRace(r *rand.Rand, tier string) []string {
 				out = append(out, fmt.Sprintf("mode=guns kind=%s n=%d", k, 1+r.Intn(16)))
 			}
 		}
-		for i := 0; i < 14; i++ {
+		for i := 0; i < 30; i++ {
 			for _, k := range kinds {
-				out = append(out, raceVariant(r, k, 2+r.Intn(23), 200+r.Intn(1500)))
+				out = append(out, raceVariant(r, k, 2+r.Intn(23), 200+r.Intn(3000)))
 			}
 		}
 	}
